@@ -172,6 +172,12 @@ class Ctx:
                     allf = json.load(f).get('findings', [])
             except FileNotFoundError:
                 allf = []
+            # per-property fragments written while a property is being built (merged by the lead)
+            frag = os.path.join(VERIF, 'findings.d', self.prop + '.json')
+            if os.path.exists(frag):
+                with open(frag) as f:
+                    d = json.load(f)
+                allf = allf + (d.get('findings', []) if isinstance(d, dict) else d)
             self._findings = [f for f in allf if f.get('property') == self.prop]
         return self._findings
 
